@@ -293,6 +293,25 @@ func vfC03eval(c *vfC03Case, st map[string]int) error {
 			}
 		}
 		cp.Close()
+		// (d') codec twins: a CID with the multihash of an archived object but another codec names nothing in the
+		// archive. Asked right after getBlock has served (and cached) the objects of that block.
+		for bi := 0; bi < len(ep.Blocks) && bi < 3; bi++ {
+			vfCall(h, "getBlock", ep.Blocks[bi].Slot, map[string]any{"encoding": "base64"})
+			epochObj.GetBlock(ctx, ep.Blocks[bi].Slot)
+			n := 0
+			for i := range ep.Objects {
+				o := &ep.Objects[i]
+				if o.BlockIdx != bi || n >= 12 {
+					continue
+				}
+				n++
+				twin := cid.NewCidV1(cid.Raw, o.Cid.Hash())
+				st["codec-twin-cid"]++
+				if data, err := epochObj.GetNodeByCid(ctx, twin); err == nil {
+					return fmt.Errorf("GetNodeByCid(%s) [nothing is archived under this CID: it is the raw-codec twin of %s] returned %d bytes after getBlock(%d)", twin, o.Cid, len(data), ep.Blocks[bi].Slot)
+				}
+			}
+		}
 		// (e) addresses without history, colliding in the gsfa pubkey index
 		pkIdx := filepath.Join(env.GsfaDir, string(indexes.Kind_PubkeyToOffsetAndSize)+".index")
 		pp, err := vfOpenProbe(pkIdx)
@@ -381,7 +400,7 @@ func TestVfC03(t *testing.T) {
 	run := vfh.Begin("C03", "absent-keys")
 	defer run.End(t)
 	vfArmWatch(run, "C03")
-	run.Require("skipped-slot", "colliding-slot", "colliding-signature", "colliding-cid", "colliding-cid-concurrent", "single-epoch", "multi-epoch", "unloaded-epoch")
+	run.Require("skipped-slot", "colliding-slot", "colliding-signature", "colliding-cid", "colliding-cid-concurrent", "codec-twin-cid", "single-epoch", "multi-epoch", "unloaded-epoch")
 	addrKnown := vfh.KnownOpen("C03", "absent-address-colliding-in-pubkey-index")
 	reproduced := 0
 	if addrKnown {
